@@ -226,7 +226,7 @@ func CheckC06(e *Env) (int, error) {
 	for i := uint64(0); i < 480; i++ { // (16+20+24+28+32) failure points x 2 panic values x 2 fragmentations, one process each
 		jobs = append(jobs, c06Job{Kind: "panics", Lo: i, Hi: i + 1, Seed: sd("panics", 0), part: true})
 	}
-	for _, k := range []string{"faults", "boundary", "structured", "stalls"} {
+	for _, k := range []string{"faults", "boundary", "structured", "stalls", "slow"} {
 		jobs = append(jobs, c06Job{Kind: k, Seed: sd(k, 0), Keep: 2, part: true})
 	}
 	addComps := func(n int) {
